@@ -39,3 +39,162 @@ theorem mergeFix_id_of_apart (r : Rec) (rules : List RuleM) (cutoff : Int) (fuel
   | succ n => simp only [mergeFix, mergeStep_none_of_apart r rules cutoff g h, bind, Except.bind, pure, Except.pure]
 
 end ASV.Proto
+
+namespace ASV.Proto
+open ASV ASV.Rules
+
+/-! ### the outer bookkeeping of `merge_over_origin` -/
+
+theorem nodup_eraseDups_aux : ∀ (n : Nat) (l : List String), l.length ≤ n → l.eraseDups.Nodup := by
+  intro n
+  induction n with
+  | zero =>
+    intro l hl
+    have : l = [] := List.eq_nil_of_length_eq_zero (by omega)
+    subst this
+    simp
+  | succ n ih =>
+    intro l hl
+    cases l with
+    | nil => simp
+    | cons a as =>
+      rw [List.eraseDups_cons, List.nodup_cons]
+      refine ⟨?_, ih _ ?_⟩
+      · intro hmem
+        rw [List.mem_eraseDups, List.mem_filter] at hmem
+        simp at hmem
+      · have := List.length_filter_le (fun b => !b == a) as
+        simp only [List.length_cons] at hl
+        omega
+
+theorem nodup_eraseDups (l : List String) : l.eraseDups.Nodup := nodup_eraseDups_aux l.length l (Nat.le_refl _)
+
+theorem flatMap_congr_mem {α β : Type} {f g : α → List β} : ∀ (l : List α), (∀ x ∈ l, f x = g x) →
+    l.flatMap f = l.flatMap g := by
+  intro l
+  induction l with
+  | nil => intro _; rfl
+  | cons a t ih =>
+    intro h
+    simp only [List.flatMap_cons, h a (by simp), ih (fun x hx => h x (by simp [hx]))]
+
+/-- one more element `a` whose key is among the (distinct) keys -/
+theorem flatMap_insert_perm {α : Type} (a : α) (y : String) (f : String → List α) :
+    ∀ (keys : List String), keys.Nodup → y ∈ keys →
+      (keys.flatMap fun x => if y == x then a :: f x else f x).Perm (a :: keys.flatMap f) := by
+  intro keys
+  induction keys with
+  | nil => intro _ h; cases h
+  | cons x ks ih =>
+    intro hn hy
+    have hn' := List.nodup_cons.1 hn
+    simp only [List.flatMap_cons]
+    by_cases e : y = x
+    · subst e
+      have hrest : (ks.flatMap fun x => if y == x then a :: f x else f x) = ks.flatMap f := by
+        apply flatMap_congr_mem
+        intro x hx
+        have : y ≠ x := fun e => hn'.1 (e ▸ hx)
+        simp [this]
+      simp only [beq_self_eq_true, if_true, hrest, List.cons_append]
+      exact List.Perm.refl _
+    · have hy' : y ∈ ks := by
+        rcases List.mem_cons.1 hy with h | h
+        · exact absurd h e
+        · exact h
+      have hne : (y == x) = false := by simpa using e
+      simp only [hne, Bool.false_eq_true, if_false]
+      exact ((ih hn'.2 hy').append_left (f x)).trans List.perm_middle
+
+/-- grouping a list by a key, for distinct keys that include every key of the list, is a rearrangement -/
+theorem group_by_key_perm {α : Type} (k : α → String) :
+    ∀ (l : List α) (keys : List String), keys.Nodup → (∀ a ∈ l, k a ∈ keys) →
+      (keys.flatMap fun x => l.filter fun a => k a == x).Perm l := by
+  intro l
+  induction l with
+  | nil =>
+    intro keys _ _
+    have : (keys.flatMap fun x => ([] : List α).filter fun a => k a == x) = [] := by
+      induction keys with
+      | nil => rfl
+      | cons x ks ih => simp [List.flatMap_cons, ih]
+    rw [this]
+  | cons a t ih =>
+    intro keys hn hk
+    have e : (keys.flatMap fun x => (a :: t).filter fun b => k b == x) =
+        keys.flatMap fun x => if k a == x then a :: (t.filter fun b => k b == x) else t.filter fun b => k b == x := by
+      apply flatMap_congr_mem
+      intro x _
+      simp only [List.filter_cons]
+    rw [e]
+    exact (flatMap_insert_perm a (k a) (fun x => t.filter fun b => k b == x) keys hn (hk a (by simp))).trans
+      ((ih keys hn (fun b hb => hk b (by simp [hb]))).cons a)
+
+theorem mapM_fst {α β : Type} (f : α → E (α × β)) (hf : ∀ a b, f a = .ok b → b.1 = a) :
+    ∀ (l : List α) (out : List (α × β)), l.mapM f = .ok out → out.map (·.1) = l := by
+  intro l
+  induction l with
+  | nil => intro out h; simp [List.mapM_nil, pure, Except.pure] at h; subst h; rfl
+  | cons a l ih =>
+    intro out h
+    obtain ⟨b, bs, h1, h2, rfl⟩ := (mapM_cons_ok f a l out).1 h
+    simp only [List.map_cons, hf a b h1, ih bs h2]
+
+theorem mapM_flatten_perm {α β : Type} (f : α → E (List β)) (g : α → List β) :
+    ∀ (l : List α), (∀ a ∈ l, ∀ b, f a = .ok b → b.Perm (g a)) →
+      ∀ out, l.mapM f = .ok out → out.flatten.Perm (l.flatMap g) := by
+  intro l
+  induction l with
+  | nil => intro _ out h; simp [List.mapM_nil, pure, Except.pure] at h; subst h; exact List.Perm.refl _
+  | cons a l ih =>
+    intro hall out h
+    obtain ⟨b, bs, h1, h2, rfl⟩ := (mapM_cons_ok f a l out).1 h
+    simp only [List.flatten_cons, List.flatMap_cons]
+    exact (hall a (by simp) b h1).append (ih (fun x hx => hall x (by simp [hx])) bs h2)
+
+/-- the first step of `merge_over_origin`: every protocluster paired with its cutoff-extended core -/
+def withExtOf (r : Rec) (rules : List RuleM) (clusters : List PC) : E (List (PC × Loc)) :=
+  clusters.mapM fun pc => do
+    let rule ← findRule rules pc.rule
+    let e ← extendLocation pc.core rule.cutoff r.len r.circular
+    pure (pc, e)
+
+/-- **`merge_over_origin` is the identity up to order when the protoclusters of each product stay apart** -/
+theorem mergeOverOrigin_apart_perm (r : Rec) (rules : List RuleM) (clusters merged : List PC)
+    (hap : ∀ withExt, withExtOf r rules clusters = .ok withExt → ∀ prod, Apart (withExt.filter (·.1.rule == prod)))
+    (h : mergeOverOrigin r rules clusters = .ok merged) : merged.Perm clusters := by
+  unfold mergeOverOrigin at h
+  obtain ⟨withExt, hw, h⟩ := bind_ok h
+  obtain ⟨groups, hg, h⟩ := bind_ok h
+  simp only [pure, Except.pure, Except.ok.injEq] at h
+  subst h
+  have hap' := hap withExt hw
+  have hfst : withExt.map (·.1) = clusters := by
+    refine mapM_fst _ ?_ clusters withExt hw
+    intro a b hb
+    obtain ⟨rule, _, hb⟩ := bind_ok hb
+    obtain ⟨e, _, hb⟩ := bind_ok hb
+    simp only [pure, Except.pure, Except.ok.injEq] at hb
+    rw [← hb]
+  have hgroups := mapM_flatten_perm _ (fun prod => withExt.filter (·.1.rule == prod))
+    ((clusters.map (·.rule)).eraseDups) (by
+      intro prod _ grp hs
+      simp only at hs
+      split at hs
+      · simp only [pure, Except.pure, Except.ok.injEq] at hs
+        rw [← hs]
+      · obtain ⟨rule, _, hs⟩ := bind_ok hs
+        rw [mergeFix_id_of_apart r rules rule.cutoff _ _ ((hap' prod).of_perm (sortByStart_perm _).symm)] at hs
+        simp only [Except.ok.injEq] at hs
+        rw [← hs]
+        exact sortByStart_perm _) groups hg
+  have hpart := group_by_key_perm (fun x : PC × Loc => x.1.rule) withExt ((clusters.map (·.rule)).eraseDups)
+    (nodup_eraseDups _) (by
+      intro a ha
+      rw [List.mem_eraseDups, ← hfst, List.map_map]
+      exact List.mem_map.2 ⟨a, ha, rfl⟩)
+  have := (hgroups.trans hpart).map (·.1)
+  rw [hfst] at this
+  exact this
+
+end ASV.Proto
